@@ -1189,6 +1189,9 @@ func (r *Reader) start(offsetsByPartition map[topicPartition]int64) {
 	r.cancel() // always cancel the previous reader
 	r.cancel = cancel
 	r.version++
+	// The spawned readers must carry the version they were started for: read
+	// it here, while the caller holds the mutex, not from the goroutines.
+	version := r.version
 
 	r.join.Add(len(offsetsByPartition))
 	for key, offset := range offsetsByPartition {
@@ -1208,7 +1211,7 @@ func (r *Reader) start(offsetsByPartition map[topicPartition]int64) {
 				readBatchTimeout: r.config.ReadBatchTimeout,
 				backoffDelayMin:  r.config.ReadBackoffMin,
 				backoffDelayMax:  r.config.ReadBackoffMax,
-				version:          r.version,
+				version:          version,
 				msgs:             r.msgs,
 				stats:            r.stats,
 				isolationLevel:   r.config.IsolationLevel,
